@@ -29,7 +29,7 @@ Fixpoint scan_all_ext (ulower : Z -> Z) (fuel : nat) (total : Z) (r : reader) (a
 Definition scan_text (orc : oracles) (src : text) : sexp :=
   let total := Z.of_nat (length (fold_cr src)) in
   let '(items, r) := scan_all_ext (o_ulower orc) (S (length src)) total (new_reader src) [] in
-  L [L items; se_bool (r_bad r); se_bool (r_oof r); A (r_maxn r)].
+  L [L items; se_bool (r_bad r); se_bool (r_oof r); se_bool (r_maxn r <=? 3)].
 
 (* parameters: ((name (toktype value)) ...) *)
 Definition sd_params (s : sexp) : option (list (text * (token * text))) :=
@@ -82,10 +82,11 @@ Definition syn_of (tbl : list (text * option resyn)) (p : text) : option resyn :
 
 Definition fuel_of (src : text) : nat := (4 * length src + 16)%nat.
 
-(* result of a parse: the value, plus the pushback maxima the hooks observe *)
+(* result of a parse: the value, plus whether the pushback maxima the hooks observe stay within the two 3-slot rings
+   (the depths themselves are an internal of the code: a rewrite that pushes back less is not a difference) *)
 Definition se_parse {X} (f : X -> sexp) (r : res (X * pstate)) : sexp :=
   match r with
-  | Ok (x, s) => L [A 0; f x; A (ps_maxn s); A (r_maxn (ps_rd s))]
+  | Ok (x, s) => L [A 0; f x; se_bool (ps_maxn s <=? 3); se_bool (r_maxn (ps_rd s) <=? 3)]
   | Err e => L (A 1 :: map A e)
   | Crash site => L [A 2; A site]
   | OutOfFuel => L [A 3]
@@ -293,6 +294,7 @@ Definition dispatch1 (orc : oracles) (req : sexp) : sexp :=
           | _, _ => bad_request
           end
       | 31%nat, [] => se_table
+      | 31%nat, [L ws] => se_table_on (flat_map (fun w => match sd_text w with Some t => [t] | None => [] end) ws)
       | 12%nat, [e] => match sd_expr e with Some e' => se_text (print_expr orc e') | None => bad_request end
       | _, _ => bad_request
       end
